@@ -292,12 +292,21 @@ func runShared(c *core.Ctx, src string, tags map[string]bool, G, rounds int) cor
 		res.Monitor = "baseline-" + base.Kind
 		return res
 	}
+	// a second, independent compilation must observe the same (else the program is not deterministic by itself)
+	if ref2, err := goja.Compile("p.js", src, false); err == nil {
+		if again := observe(newProgRuntime(), ref2); again != base {
+			st.Inc("shared:baseline_not_reproducible")
+			res.Verdict = core.Inconclusive
+			res.Monitor = "baseline-not-reproducible"
+			res.Detail = base.String() + "\nvs\n" + again.String()
+			return res
+		}
+	}
+	// running the very same Program again, sequentially, on another fresh Runtime must observe the same
 	if again := observe(newProgRuntime(), ref); again != base {
-		st.Inc("shared:baseline_not_reproducible")
-		res.Verdict = core.Inconclusive
-		res.Monitor = "baseline-not-reproducible"
-		res.Detail = base.String() + "\nvs\n" + again.String()
-		return res
+		r := core.Result{Verdict: core.Violated, NonTrivial: true, Key: src, Monitor: "result-differs-sequential-rerun",
+			Detail: fmt.Sprintf("the second sequential run of one Program (fresh Runtime each) observed\n  %s\nthe first run observed\n  %s", again, base), Case: cs}
+		return r
 	}
 	shared, err := goja.Compile("p.js", src, false)
 	if err != nil {
